@@ -100,6 +100,45 @@ theorem spec_wellformed (z : Spec.ZSet) (h : Spec.WF z) (m : Bytes) (s : Score) 
     intro s' hs'
     exact (Spec.mem_zrem.mp hs').2 rfl
 
+/-- How the two zeros are ordered: -0.0 and +0.0 COMPARE EQUAL (as in Redis and as Rust's
+    `partial_cmp` says), so between two members they are ordered by member bytes, in either
+    assignment, exactly like any other pair of equal scores — and the code's comparator
+    (`compare_nodes == Less`) is that order. -/
+theorem zeros_compare_equal (a b : Bytes) (h : a ≠ b) :
+    entLt (.fin 0, a) (.nzero, b) = bytesLt a b ∧ entLt (.nzero, a) (.fin 0, b) = bytesLt a b ∧
+    ccmpLt (.num (.fin 0), a) (.num .nzero, b) = bytesLt a b ∧
+    ccmpLt (.num .nzero, a) (.num (.fin 0), b) = bytesLt a b := by
+  refine ⟨?_, ?_, ?_, ?_⟩ <;> simp [entLt, ccmpLt, CScore.lt, CScore.eqv, Score.lt, Score.eqv, Score.cls, Score.mag, h]
+
+/-- …but they are different VALUES, and the set holds the latest one: re-scoring a member from +0.0
+    to -0.0 (or back) replaces the stored score in the node and in the key index, for every tower
+    height, although the two scores compare equal (no "unchanged" shortcut is sound here). -/
+theorem zero_sign_is_latest_score (sl : SkipList) (h : Inv sl) (h1 h2 : Nat) (m : Bytes) :
+    let s1 := (Code.insert h1 m (.num (.fin 0)) sl).1
+    let s2 := (Code.insert h2 m (.num .nzero) s1).1
+    let s3 := (Code.insert h1 m (.num (.fin 0)) s2).1
+    getScore m s2 = some (.num .nzero) ∧ (CScore.num .nzero, m) ∈ level0 s2 ∧ (CScore.num (.fin 0), m) ∉ level0 s2 ∧
+    getScore m s3 = some (.num (.fin 0)) ∧ (CScore.num (.fin 0), m) ∈ level0 s3 ∧ (CScore.num .nzero, m) ∉ level0 s3 := by
+  intro s1 s2 s3
+  have i1 : Inv s1 := inv_insert h h1 m _
+  have i2 : Inv s2 := inv_insert i1 h2 m _
+  have i3 : Inv s3 := inv_insert i2 h1 m _
+  have key : ∀ (t : SkipList) (ht : Nat) (s : Score) (hi : Inv t),
+      getScore m (Code.insert ht m (.num s) t).1 = some (.num s) ∧
+      (CScore.num s, m) ∈ level0 (Code.insert ht m (.num s) t).1 ∧
+      ∀ s', s' ≠ s → (CScore.num s', m) ∉ level0 (Code.insert ht m (.num s) t).1 := by
+    intro t ht s hi
+    have hi' := inv_insert hi ht m s
+    have hmem : (CScore.num s, m) ∈ level0 (Code.insert ht m (.num s) t).1 := by
+      rw [level0_insert hi]; exact mem_insSorted.mpr (Or.inl rfl)
+    refine ⟨?_, hmem, ?_⟩
+    · exact (idxGet_eq_some hi'.idxSorted).mpr ((hi'.idxMap m _).mpr hmem)
+    · intro s' hne hm'
+      exact hne (CScore.num.inj (hi'.member_unique hm' hmem))
+  have k2 := key s1 h2 .nzero i1
+  have k3 := key s2 h1 (.fin 0) i2
+  exact ⟨k2.1, k2.2.1, k2.2.2 _ (by simp), k3.1, k3.2.1, k3.2.2 _ (by simp)⟩
+
 /-! ## 3. Any sequence of commands on a key -/
 
 /-- After ANY sequence of ZADD / ZINCRBY / ZREM / ZPOPMIN / ZPOPMAX (any tower heights, any
@@ -406,6 +445,8 @@ example : Spec.WF [(.ninf, [1]), (.fin (-3), [9]), (.fin 0, []), (.fin 0, [0]), 
 example : Spec.validPairs [(some (.num (.fin 1)), [97]), (some (.num .pinf), [98])] = some [(.fin 1, [97]), (.pinf, [98])] := by decide
 example : Spec.validPairs [(some (.num (.fin 1)), [97]), (some .nan, [98])] = none := by decide
 example : zrangeDev false 3 1 (-100) = false ∧ zrangeDev true 3 2 10 = false := by decide
+example : absKey (runCmds false [.zadd 0 [97] (.fin 0), .zadd 2 [98] .nzero, .zadd 1 [97] .nzero, .zincrby 0 [98] (.fin 0)]) =
+    [(.nzero, [97]), (.fin 0, [98])] := by decide
 example : Spec.zrank [98] (Spec.runCmds abc) = some 1 ∧ Spec.zrevrank [98] (Spec.runCmds abc) = some 1 := by decide
 
 end Ferrous.C04
